@@ -154,6 +154,8 @@ def bounded(tier, seed, repo_root):
         for b in base:
             for o in gt.OPTION_COMBOS:
                 jobs.append(('json', a, b, o))
+    for a, b in D.hash_collision_pairs():      # distinct values with equal Python hashes
+        jobs.append(('json', a, b, gt.OPTION_COMBOS[0]))
     rnd = random.Random(seed)
     pd = [d for d in docs if 'None' not in repr(d)]
     for _ in range(400 if tier == 'quick' else 4000):
